@@ -782,7 +782,7 @@ func GenLiteral(r *Rng, s *GSchema, t *TRef, depth int, allowNull bool) string {
 	case "Float":
 		return Pick(r, []string{"1.5", "0.0", "3", "-2.25", "1e3"})
 	case "String":
-		return Pick(r, []string{`""`, `"a"`, `"hello world"`, `"q\"uote"`, `"""block"""`, `"é"`, "\"\"\"\n  two\n  lines\n\"\"\""})
+		return Pick(r, []string{`""`, `"a"`, `"hello world"`, `"q\"uote"`, `"""block"""`, `"é"`, `"naïve café ☕ — ok"`, `"tab\there"`, `"uni\u00e9code"`, "\"\"\"\n  two\n  lines\n\"\"\""})
 	case "Boolean":
 		return Pick(r, []string{"true", "false"})
 	case "ID":
